@@ -123,7 +123,7 @@ _wire("C17", 40, 900,
       ["which of several matching specific sub-listeners receives an authenticated connection is not judged (sync.Map iteration order)",
        "a 'mirroring' application base config is part of the configuration space: the statement quantifies over base-TLS clients offering arbitrary names"])
 _wire("C15", 45, 900,
-      "each run draws a plan: 2-6 clients from {authentication with own client state and extra protocols, authorized node-led fetch+authentication, unauthorized fetch, token enrollment with distinct per-token state, rejected authentication of a removed node}, 2-4 acceptor goroutines, and the listener's option slice with tape-chosen length 0-4 and spare capacity 0-8. The plan is executed twice in fresh identical worlds: one client at a time, then all clients concurrently with every simstore call and every simnet read/write/accept as a scheduling point of the seeded scheduler (with per-run priorities for long overtakes). Non-trivial: every plan with >=2 clients; distinct by (client kinds, option slice shape, acceptors, schedule hash).",
+      "each run draws a plan: 2-6 clients from {authentication with own client state and extra protocols, authorized node-led fetch+authentication, unauthorized fetch, token enrollment with distinct per-token state, rejected authentication of a removed node}, 2-4 acceptor goroutines, and the listener's option slice with tape-chosen length 0-12 and spare capacity 0-8. The plan is executed twice in fresh identical worlds: one client at a time, then all clients concurrently with every simstore call and every simnet read/write/accept as a scheduling point of the seeded scheduler (with per-run priorities for long overtakes). Non-trivial: every plan with >=2 clients; distinct by (client kinds, option slice shape, acceptors, schedule hash).",
       ["isolation is decided by differential execution: per client the tuple (dial result, accept result, negotiated-protocol class, ClientState, ClientNextProtos tail, node record existence and state, token consumed) must be equal in both executions; connections are attributed to clients by a unique marker protocol each client offers",
        "literal data-race freedom is not decided by the serialising scheduler (consequences of unsynchronised sharing are); both tiers add an auxiliary free-running -race stress (bin/racestress; 8 s quick, 90 s thorough)"])
 META["C19"] = dict(
